@@ -1,3 +1,4 @@
 import GeoVerif.Props.C04
 import GeoVerif.Props.C07
+import GeoVerif.Props.C13
 import GeoVerif.Props.C16
